@@ -179,6 +179,7 @@ PROPS = {
             R("h23", "c16", "TestC16_Topic", (60, 4, 900), (6000, 8, 10000)),
             R("h23", "c16", "TestC16_CloseRace", (80, 4, 300), (8000, 8, 10000)),
             R("h23", "c16", "TestC16_PubsubGone", (60, 2, 300), (4000, 8, 10000)),
+            R("h23", "c16", "TestC16_CancelledDirect", (60, 4, 300), (6000, 8, 10000)),
         ],
     },
     "C08": {
